@@ -170,7 +170,7 @@ fn field() -> BoxedStrategy<Field> {
         .prop_flat_map(|(kind, vari, trai, scod, terminated)| g::value_for(kind, 300).prop_map(move |val| Field { ty: RType { kind, vari, trai, scod }, val, terminated }))
         .boxed()
 }
-fn strategy() -> impl Strategy<Value = Case> {
+pub fn strategy() -> impl Strategy<Value = Case> {
     (
         vec(field(), 0..12),
         any::<bool>(),
@@ -179,6 +179,11 @@ fn strategy() -> impl Strategy<Value = Case> {
         prop_oneof![3 => Just(None), 1 => prop::sample::select(vec![RKind::SintFx(32), RKind::SintFx(64), RKind::UintFx(32), RKind::UintFx(64)]).prop_map(Some)],
     )
         .prop_map(|(fields, big_endian, trailing, corrupt, with_fixed_point)| Case { fields, big_endian, trailing, corrupt, with_fixed_point })
+}
+
+pub fn raw_strategy() -> impl Strategy<Value = RawCase> {
+    (vec(field().prop_map(|f| f.ty), 0..8), any::<bool>(), prop_oneof![vec(any::<u8>(), 0..40), vec(prop::sample::select(vec![0u8, 1, 2, 3, 4, 0x61, 0xC3, 0xA9, 0xFF]), 0..40)])
+        .prop_map(|(types, big_endian, data)| RawCase { types, big_endian, data })
 }
 
 pub fn run(run: &Run) {
@@ -197,10 +202,7 @@ pub fn run(run: &Run) {
         "arbitrary-payloads",
         run.cases(400_000, 6_000_000),
         0.3,
-        || {
-            (vec(field().prop_map(|f| f.ty), 0..8), any::<bool>(), prop_oneof![vec(any::<u8>(), 0..40), vec(prop::sample::select(vec![0u8, 1, 2, 3, 4, 0x61, 0xC3, 0xA9, 0xFF]), 0..40)])
-                .prop_map(|(types, big_endian, data)| RawCase { types, big_endian, data })
-        },
+        raw_strategy,
         check_raw,
     );
 }
